@@ -501,7 +501,7 @@ func (i *interpreter) doSelect(fr *frame, instr *ssa.Select) value {
 	}
 	if len(readyIdx) > 0 {
 		pick := 0
-		if i.explore && len(readyIdx) > 1 {
+		if (i.explore || i.exploreSelect) && len(readyIdx) > 1 {
 			pick = i.decide("select", make([]*Term, len(readyIdx)))
 		}
 		k := readyIdx[pick]
